@@ -68,6 +68,12 @@ CHECKS["C15"] = (
     "'located in a directory named test/tests/docs' is read as: some directory segment below the package root equals that name exactly.",
     "6/C15",
 )
+CHECKS["C11"] = (
+    E1,
+    "28 placements of a referenced class (same module, nested, sibling module/package, parent package, private module re-exported by name/alias/star and used through package or module path, not re-exported, private class, nested class of another module, enum, equal short names, 4 other-library forms, 6 unmapped builtins) x 12 reference positions (parameter, constructor parameter, result, class/instance attribute, superclass, list/dict/generic argument, union member, callable parameter), one reference per tree, plus ordered pairs of placements in one module (7 quick, all 28 thorough), under both naming settings. Oracle over the COMPLETE stub set of each run: every named type / superclass is a built-in target, a type parameter in scope, declared in the file or imported; every import names a package some stub announces and a top-level declaration of it; no file imports what it declares.",
+    "Trusts the recogniser for names; packages/names are compared as written in the stubs.",
+    "6/C11",
+)
 NOT_YET = {}  # id -> reason (filled for properties without a check)
 
 props = [json.loads(l) for l in open(V / "properties.jsonl")]
